@@ -207,7 +207,7 @@ Fixpoint simd_blocks (fuel : nat) (kp : kparams) (A : abc) (seq : list byte) (l 
       else Ok (i, dst, error)
   end.
 
-(* for s in seq.iter() { A::Symbol::from_ascii(*s)?; } *)
+(* for s in seq.iter() { A::Symbol::from_ascii( *s )?; } *)
 Fixpoint rescan (A : abc) (seq : list byte) : res unit :=
   match seq with
   | [] => Ok tt
